@@ -234,5 +234,6 @@ func runC19(r *Run) {
 			r.Sample(map[string]any{"filters": srcs, "history": history})
 		}
 	}
-	r.Finish("configurations of 1-5 filters (mock, literal secret, no secret, unnamed reference, references to shared/distinct names in the own, empty or a foreign namespace) x histories of 3-12 events (set, update, empty value, key missing, delete, being-deleted with finalizer, reconcile without change) on referenced and unrelated Secrets in the own and another namespace; the real SecretController.Reconcile with controller-runtime's fake client vs the Lean model, judged by a reference map name -> current value; non-trivial = every accepted configuration, distinct by configuration")
+	c19Rotation(r)
+	r.Finish("one ExtAuthZFilter serving a login across two rotations of the referenced Secret, the client credentials read off the token endpoint (code exchange and refresh); configurations of 1-5 filters (mock, literal secret, no secret, unnamed reference, references to shared/distinct names in the own, empty or a foreign namespace) x histories of 3-12 events (set, update, empty value, key missing, delete, being-deleted with finalizer, reconcile without change) on referenced and unrelated Secrets in the own and another namespace; the real SecretController.Reconcile with controller-runtime's fake client vs the Lean model, judged by a reference map name -> current value; non-trivial = every accepted configuration, distinct by configuration")
 }
